@@ -138,10 +138,10 @@ def behaviour_of_line(trace, lineno):
     """Return the lines of the behaviour (from its reset event) containing 1-based line `lineno`."""
     lines = open(trace).read().splitlines()
     start = lineno - 1
-    while start > 0 and '"ev":"reset"' not in lines[start]:
+    while start > 0 and '"ev":"reset"' not in lines[start] and '"ev":"dtree"' not in lines[start]:
         start -= 1
     end = lineno
-    while end < len(lines) and '"ev":"reset"' not in lines[end]:
+    while end < len(lines) and '"ev":"reset"' not in lines[end] and '"ev":"dtree"' not in lines[end]:
         end += 1
     return lines[start:end], lineno - start
 
@@ -203,7 +203,7 @@ class Check:
             nb = 0
             with open(r["trace"]) as f:
                 for l in f:
-                    if '"ev":"reset"' in l:
+                    if '"ev":"reset"' in l or '"ev":"dtree"' in l:
                         nb += 1
             if r["accepted"] is not None:
                 self.cov["traces_validated_against_impl"] += nb
@@ -216,7 +216,7 @@ class Check:
                     for i, l in enumerate(f):
                         if i >= lineno - 1:
                             break
-                        if '"ev":"reset"' in l:
+                        if '"ev":"reset"' in l or '"ev":"dtree"' in l:
                             before += 1
                 self.cov["traces_validated_against_impl"] += max(0, before - 1)
                 self.violation(f"{label}trace rejected by TLC at event {off} of the behaviour: {ev}",
